@@ -1,6 +1,7 @@
 import OV.Model.C13Export
 import OV.Model.C13Roundtrip
 import OV.Model.C13Types
+import OV.Model.C13Values
 import OV.Drivers.Loop
 /-! Line-protocol driver for C13.  Every string is sent hex-encoded with an `x` prefix (`x` = "").
 
@@ -12,7 +13,9 @@ import OV.Drivers.Loop
       GRAPH := <nin> in* <nout> out* <ninit> (<name> <size> <dtype> <rank> dim* <finite> <lit>)* <nsparse> <nnodes> NODE*
       NODE  := <op> <domain> <name> <nin> in* <nout> out* <nattr> ATTR*
       ATTR  := <name> P | <name> T <dtype> <rank> dim* <finite> <lit> | <name> R <ref> | <name> G GRAPH | <name> U
-    → program lines joined by ` ; `, or `ERR:<python exception class>` -/
+    → program lines joined by ` ; `, or `ERR:<python exception class>`
+    `C13 litconst <rank> dim* <n> val*` → hex text `_get_const_repr` prints for the INT64 tensor | `none`
+    `C13 litparse <s>`           → `S <i>` | `L <n> <i>*` | `none` (reading of an inlined literal) -/
 namespace OV.Drivers.C13
 open OV.C13
 
@@ -238,6 +241,26 @@ def handle (args : List String) : String :=
     comma (opsTable.map (fun p => p.1 ++ ":" ++ p.2)) ++ " | " ++ comma (convTable.map (fun p => p.1 ++ ":" ++ p.2))
       ++ " | " ++ comma kwlist
   | ["type", dt, sh] => handleType dt sh
+  | "litconst" :: rest =>
+    -- `litconst <rank> dim* <n> val*` : `_get_const_repr` on an INT64 tensor → hex text | `none`
+    (match pList pNat rest with
+     | some (dims, ts) =>
+       (match pList (fun ts => match ts with | t :: ts => t.toInt?.map (·, ts) | [] => none) ts with
+        | some (vals, _) =>
+          (match OV.C13V.constReprI64 dims vals with
+           | some t => hex t
+           | none => "none")
+        | none => "bad-op")
+     | none => "bad-op")
+  | ["litparse", s] =>
+    -- the reading of a literal text: `S <i>` | `L <n> <i>*` | `none`
+    (match unhex s with
+     | some t =>
+       (match OV.C13V.parse t with
+        | some (.scalar i) => "S " ++ Int.repr i
+        | some (.list l) => "L " ++ " ".intercalate (Nat.repr l.length :: l.map Int.repr)
+        | none => "none")
+     | none => "bad-op")
   | "straight" :: os :: _ :: rest =>
     (match parseOpts os with
      | some o => (handleStraight o rest).getD "bad-op"
